@@ -23,6 +23,7 @@ PROP = {
         inst(F, "c17_t1_announced_k3", Q, "3 deliveries", "T1 safety: Complete => data exact", covers=3, timeout=1800),
         inst(F, "c17_t1_announced_k4", Q, "4 deliveries", "T1 safety: Complete => data exact", covers=3, timeout=1800, cost=50),
         inst(F, "c17_t1_announced_nokeep_k4", Q, "4 deliveries, data not kept", "T1 safety on counters", covers=3, timeout=1800),
+        inst(F, "c17_t3_missing_start_cap2_k3", Q, "announcement lost, 3 deliveries, reserved capacity 2 (reached and exceeded by the stored data)", "T3 safety without announcement; stored data == received payload across Vec growth", covers=3, timeout=1800),
         inst(F, "c17_t3_missing_start_k3", Q, "announcement lost, 3 deliveries", "T3 safety without announcement", covers=3, timeout=1800),
         inst(F, "c17_t2_in_order_completes", Q, "genuine in-order + <= 1 duplicate", "T2 progress: Complete exactly at the last package", covers=2, timeout=1800),
         inst(F, "c17_t4_dropped_package_never_complete", Q, "one package dropped", "T4 never Complete", covers=2, timeout=1800),
